@@ -15,7 +15,7 @@ from sim import devices
 from sim.canon import Log, dec_table, enc_table, canon_rows, canon_row, enc
 from sim.catalogue import (f_reducer, f_groupmapper, f_fold, _count)
 from sim.core import outcome, ddmin_lists
-from sim.devices import SimTable, SimSourceError
+from sim.devices import SimTable, SimSourceError, SOURCE_ERROR_KINDS
 from sim.gen import gen_table
 from sim.loader import load_petl
 
@@ -232,7 +232,8 @@ def gen_case(rng, tier, g):
             # is not a completed one and must not be replayed
             si = rng.randrange(op.nsrc)
             steps.append(['ARM', si, rng.choice([1, 2, 3, max(1, n // 2), n,
-                                                 n + 1])])
+                                                 n + 1]),
+                          rng.choice(SOURCE_ERROR_KINDS)])
         else:
             si = rng.randrange(op.nsrc)
             kind = rng.choice(['append', 'delete', 'replace'])
@@ -405,7 +406,8 @@ def _run_history(e, case, log, sb, probes):
             log.add('edit', si, kind, idx)
             continue
         if step[0] == 'ARM':
-            srcs[step[1]].arm(step[2], passes=1)
+            srcs[step[1]].arm(step[2], passes=1,
+                              kind=step[3] if len(step) > 3 else 'plain')
             log.add('arm', step[1], step[2])
             continue
         _, vi, upto = step
